@@ -24,6 +24,18 @@ CHECKS = {
  "C16": dict(engine="sh", design="5/C16", technique="TLC exhaustive enumeration with accepted-set exchange against reference parsers written from draft-09 section 4.2 (tla/MC_SH, tla/StructuredHeader.tla) + TLC trace validation of writer runs (tla/Trace_SH)",
    text="Every string up to length 5 (quick) / 6 (thorough) over a 16-symbol grammar-relevant alphabet, plus longer families behind '*', 'a;' and '\"', is parsed by both TLA+ reference parsers; the real parsers must accept exactly the same strings with the same values; each accepted input is re-serialised and re-parsed by the real code; random valid and invalid values go through the real writer; every writer run is judged by the serialisation relation (parses back to the value, parameters sorted, invalid values refused).",
    note="Trusted: TLC, tla/StructuredHeader.tla as transcription of draft-ietf-httpbis-header-structure-09 section 4 restricted to the implemented subset with four named deviations."),
+ "C01": dict(engine="sxg", design="5/C01", technique="TLC trace validation (tla/Trace_Sxg, predicate Authentic of tla/Sxg.tla, JDK ECDSA/SHA-256 via module overrides) of real Verify runs on mutated serialized and in-memory exchanges; design-level Dolev-Yao model MC_Sxg when present",
+   text="Six honest real exchanges (3 versions x P-256/P-384) are mutated at every byte (bit flip, delete, insert, truncate), in every semantic field, every Signature parameter, with foreign certificates and attacker re-signing; for each run TLC decides from the bytes: real verdict ok implies that a signature item carries a signature over a message the key really signed (recorded inside the signing algorithm), t in the window, returned payload = what the signed digest commits to. The real reader's result is also compared with the reference reader.",
+   note="Trusted: TLC, JDK crypto, tla/Sxg.tla as transcription of the vendored drafts. Certificate trust is outside the library; ECDSA malleability and unsigned decoration may keep a verdict ok."),
+ "C02": dict(engine="sxg", design="5/C02", technique="TLC trace validation (tla/Trace_Sxg kind full: File/RefRead/Writable/Accept of tla/Sxg.tla) of real sign-write-read-verify runs incl. the length-boundary grid",
+   text="Seeded exchanges over versions, curves, record sizes 1..16384, payload lengths around record multiples, multi-valued mixed-case headers, plus URL 65535/65536/65537, Signature 16384/16385, header block 524288/524289: write must fail exactly beyond the limits, the file must read back to the same fields (real and reference reader), verdicts at five instants before and after the round trip must equal Accept and return the original payload.",
+   note="Trusted: TLC, JDK crypto, tla/Sxg.tla. b1 2^24 boundaries are thorough-tier only."),
+ "C08": dict(engine="sxg", design="5/C08", technique="TLC trace validation (tla/Trace_Sxg kind full): byte-exact comparison of real outputs with Msg/HeadersCbor/SigHeaderText/File/HeaderIntegrity of tla/Sxg.tla; signature checked by the JDK",
+   text="For every generated exchange and version the real signed message, header CBOR, Signature header text, header-integrity string and file bytes must equal the specification's bytes computed by TLC from the logged inputs (MI stream and digest recomputed too); the sig parameter must verify under the certificate with the JDK over the specification's message.",
+   note="Trusted: TLC, JDK crypto, tla/Sxg.tla, tla/StructuredHeader.tla, tla/Cbor.tla. Chains of >= 1 certificate; dates >= 0."),
+ "C09": dict(engine="sxg", design="5/C09", technique="TLC trace validation (tla/Trace_Sxg kind ver, exact): real Verify verdict must equal predicate Accept(x,t) of tla/Sxg.tla on a deviation grid of real signed exchanges",
+   text="Per version: baseline, every single deviation (instants incl. +-1 ns, lifetimes around 7 days, methods, every banned header in 4 letter cases, Cache-Control subsets as one or several field lines, Expires, statuses 100..599, validity-URL origin variants, Content-Type, integrity id), the same on a non-default-cacheable status, sampled pairs and 3..5-way combinations; verdict equality in both directions.",
+   note="Trusted: TLC, JDK crypto, tla/Sxg.tla (RFC 7234 section 3, RFC 6454, banned lists of the impl draft; UnderstoodStatus = go1.23.5 http.StatusText table)."),
 }
 
 def main():
@@ -38,6 +50,7 @@ def main():
             {"name": "cbor", "path": "tla/Cbor.tla tla/CborMachines.tla tla/MC_Cbor*.tla tla/Trace_Cbor*.tla lib/cbor_checks.py harness/cmd/vh/cbor*.go", "serves_properties": ["C11", "C12", "C13"], "kind_free_text": "TLA+ spec + TLC (exhaustive + trace validation) + Go replay harness"},
             {"name": "mice", "path": "tla/MiceCore.tla tla/Mice.tla tla/MC_Mice.tla tla/Trace_Mice.tla tla/Crypto.tla tla/overrides lib/mice_checks.py harness/cmd/vh/mice*.go", "serves_properties": ["C14", "C15"], "kind_free_text": "TLA+ spec (abstract + concrete crypto instantiation) + TLC + Go replay harness"},
             {"name": "sh", "path": "tla/StructuredHeader.tla tla/MC_SH.tla tla/Trace_SH.tla lib/sh_checks.py harness/cmd/vh/sh.go", "serves_properties": ["C16"], "kind_free_text": "TLA+ reference parsers + TLC + Go harness"},
+            {"name": "sxg", "path": "tla/Sxg.tla tla/SxgConsts.tla tla/Url.tla tla/Trace_Sxg.tla lib/sxg_checks.py harness/cmd/vh/sxg*.go", "serves_properties": ["C01", "C02", "C08", "C09"], "kind_free_text": "TLA+ byte-level spec + TLC trace validation with JDK crypto + Go harness"},
          ],
          "checks": [], "notes": "See DESIGN.md. Exit 2 of a check means infrastructure failure, never a verdict.", "not_applicable": []}
     for i in ids:
